@@ -19,6 +19,7 @@ import (
 	"github.com/DataDog/datadog-traceroute/common"
 	"github.com/DataDog/datadog-traceroute/icmp"
 	"github.com/DataDog/datadog-traceroute/packets"
+	"github.com/DataDog/datadog-traceroute/result"
 	"github.com/DataDog/datadog-traceroute/reversedns"
 	"github.com/DataDog/datadog-traceroute/tcp"
 	"pgregory.net/rapid"
@@ -31,11 +32,17 @@ type rawItem struct {
 
 // rawSink is only ever touched by the goroutine that sends.
 type rawSink struct {
-	sent [][]byte
+	sent   [][]byte
+	callAt []time.Time           // instant WriteTo was entered, per write
+	stalls map[int]time.Duration // write index -> how long that write blocks (a full send buffer, a slow device)
 }
 
 func (s *rawSink) WriteTo(buf []byte, _ netip.AddrPort) error {
+	s.callAt = append(s.callAt, time.Now())
 	s.sent = append(s.sent, append([]byte(nil), buf...))
+	if d := s.stalls[len(s.sent)-1]; d > 0 {
+		time.Sleep(d)
+	}
 	return nil
 }
 func (s *rawSink) Close() error { return nil }
@@ -51,6 +58,7 @@ type rawSource struct {
 	onStage  func(stage int) [][]rawItem // lets SACK compute its lists once the local port is known
 	reads    int
 	early    int
+	readAt   []time.Time // instant each item of the last stage was returned
 }
 
 func (s *rawSource) SetReadDeadline(t time.Time) error { s.deadline = t; return nil }
@@ -76,6 +84,9 @@ func (s *rawSource) Read(buf []byte) (int, error) {
 		if s.next < len(items) && items[s.next].at <= now.Sub(s.t0) {
 			it := items[s.next]
 			s.next++
+			if s.stage == len(s.stages)-1 {
+				s.readAt = append(s.readAt, now)
+			}
 			return copy(buf, it.data), nil
 		}
 		if !s.deadline.IsZero() && !now.Before(s.deadline) {
@@ -151,6 +162,12 @@ func synthQuote(kind string, v6 bool, local, target netip.Addr, lport, tport uin
 var c14Mu sync.Mutex
 
 func runC14(t *testing.T, c *c14Case) (err error, reads, sent int) {
+	err, reads, sent, _, _, _ = runC14x(t, c, nil)
+	return
+}
+
+// runC14x is runC14 with optional write stalls; it also returns the wire objects and the run.
+func runC14x(t *testing.T, c *c14Case, stalls map[int]time.Duration) (err error, reads, sent int, sinkOut *rawSink, srcOut *rawSource, runOut *result.TracerouteRun) {
 	c14Mu.Lock()
 	defer c14Mu.Unlock()
 	v6 := c.Variant == "icmp6" || c.Variant == "udp6"
@@ -164,14 +181,14 @@ func runC14(t *testing.T, c *c14Case) (err error, reads, sent int) {
 		var e error
 		srv, e = NewSackServer(netip.MustParseAddr("127.91.2.3"), 0, SackCfg{Permit: true, ClientNxt: c.ISN, ServerISN: 5})
 		if e != nil {
-			return fmt.Errorf("harness-infra: %v", e), 0, 0
+			return fmt.Errorf("harness-infra: %v", e), 0, 0, nil, nil, nil
 		}
 		defer srv.Close()
 		target, tport = srv.Addr.Addr(), srv.Addr.Port()
 	}
 	la, conn, e := common.LocalAddrForHost(net.IP(target.AsSlice()), 80)
 	if e != nil {
-		return fmt.Errorf("harness-infra: %v", e), 0, 0
+		return fmt.Errorf("harness-infra: %v", e), 0, 0, nil, nil, nil
 	}
 	conn.Close()
 	local := la.AddrPort().Addr().Unmap()
@@ -206,7 +223,7 @@ func runC14(t *testing.T, c *c14Case) (err error, reads, sent int) {
 		}
 		return items
 	}
-	sink := &rawSink{}
+	sink := &rawSink{stalls: stalls}
 	src := &rawSource{}
 	if c.Variant == "sack" {
 		src.onStage = func(int) [][]rawItem {
@@ -236,11 +253,11 @@ func runC14(t *testing.T, c *c14Case) (err error, reads, sent int) {
 		pp.SendDelay = delay
 		switch c.Variant {
 		case "icmp4", "icmp6":
-			_, err = icmp.RunICMPTraceroute(context.Background(), icmp.Params{Target: target, ParallelParams: pp})
+			runOut, err = icmp.RunICMPTraceroute(context.Background(), icmp.Params{Target: target, ParallelParams: pp})
 		case "sack":
-			_, err = runSackWith(pp, netip.AddrPortFrom(target, tport), time.Duration(c.TimeoutMs)*time.Millisecond)
+			runOut, err = runSackWith(pp, netip.AddrPortFrom(target, tport), time.Duration(c.TimeoutMs)*time.Millisecond)
 		default:
-			_, err = callEntryUDP(target, tport, c, delay)
+			runOut, err = callEntryUDP(target, tport, c, delay)
 		}
 	}
 	if c.RealTime {
@@ -255,7 +272,7 @@ func runC14(t *testing.T, c *c14Case) (err error, reads, sent int) {
 			synctest.Test(t, func(t *testing.T) { call() })
 		}()
 	}
-	return err, src.reads, len(sink.sent)
+	return err, src.reads, len(sink.sent), sink, src, runOut
 }
 
 func genC14(rt *rapid.T) *c14Case {
@@ -326,7 +343,7 @@ func TestC14Fanout(t *testing.T) {
 	})
 }
 
-func callEntryUDP(target netip.Addr, port uint16, c *c14Case, delay time.Duration) (any, error) {
+func callEntryUDP(target netip.Addr, port uint16, c *c14Case, delay time.Duration) (*result.TracerouteRun, error) {
 	u := newUDP(target, port, c, delay)
 	return u.Traceroute()
 }
